@@ -353,36 +353,41 @@ def _case(seed: int) -> Dict[str, Any]:
     if seed < 0:
         return _run_case(seed, {0: _small_dtype_trace()})
     nthreads = 1 + seed % 3
+    two_ranks = seed % 5 == 2  # one call graph over two ranks, the SECOND one is checked (per-rank bookkeeping must not leak across ranks)
+    if two_ranks:
+        nthreads = 2  # a ProfilerStep thread and a backward thread on every rank
     kw = dict(n_threads=nthreads, n_streams=1 + seed % 2, steps=1 + seed % 2, p_launch=0.7, p_zero=0.0, min_launch_q=1, p_sync=0.0, p_missing_kernel=0.1, p_orphan_kernel=0.05, n_top=2 + seed % 2, max_depth=3)
-    per_rank = gen.gen_trace_set(seed, n_ranks=1, **kw)
-    evs = per_rank[0]
-    if seed % 3 == 0:  # main-thread backward annotations, some ending exactly where a backward-thread op ends
-        steps = [e for e in evs if str(e.get("name", "")).startswith("ProfilerStep")]
-        for s in steps:
-            b0, b1 = s["ts"] + s["dur"] // 2, s["ts"] + s["dur"]
-            evs.append(synth.annotation("## backward ##", b0, b1 - b0))
-            if nthreads >= 2:  # backward-thread operators sharing the annotation's start / end instants
-                evs.append(synth.host_op("autograd::engine::evaluate_function: EdgeBackward", b1 - 10, 10, tid=2))
-                evs.append(synth.host_op("autograd::engine::evaluate_function: StartBackward", b0, 5, tid=2))
+    per_rank = gen.gen_trace_set(seed, n_ranks=2 if two_ranks else 1, **kw)
+    for evs in per_rank.values():
+        if seed % 3 == 0 or two_ranks:  # main-thread backward annotations, some ending exactly where a backward-thread op ends
+            steps = [e for e in evs if str(e.get("name", "")).startswith("ProfilerStep")]
+            for s in steps:
+                b0, b1 = s["ts"] + s["dur"] // 2, s["ts"] + s["dur"]
+                evs.append(synth.annotation("## backward ##", b0, b1 - b0))
+                if nthreads == 1:  # a backward thread of its own (the generator drew none): operators sharing the annotation's start / end instants
+                    evs.append(synth.host_op("autograd::engine::evaluate_function: EdgeBackward", b1 - 10, 10, tid=2))
+                    evs.append(synth.host_op("autograd::engine::evaluate_function: StartBackward", b0, 5, tid=2))
+    if two_ranks:
+        return _run_case(seed, per_rank, check_rank=1, ranks=None)
     return _run_case(seed, per_rank)
 
 
-def _run_case(seed: int, per_rank) -> Dict[str, Any]:
+def _run_case(seed: int, per_rank, check_rank: int = 0, ranks=(0,)) -> Dict[str, Any]:
     from hv import rt
 
-    nthreads = len({e.get("tid") for e in per_rank[0] if e.get("cat") in ("cpu_op", "user_annotation", "cuda_runtime")})
+    nthreads = len({e.get("tid") for e in per_rank[check_rank] if e.get("cat") in ("cpu_op", "user_annotation", "cuda_runtime")})
     fails: List[Dict[str, Any]] = []
     n = 0
-    inp = {"seed": seed, "events": per_rank}
+    inp = {"seed": seed, "events": per_rank, "call_graph_ranks": list(ranks) if ranks is not None else "all", "checked_rank": check_rank}
     with rt.trace_dir(per_rank) as d:
         try:
             from hta.common.trace_call_graph import CallGraph
 
             t = rt.lib(fails, "load_traces", inp, rt.load_trace, d, True, use_multiprocessing=False)
-            cg = rt.lib(fails, "CallGraph", inp, CallGraph, t, ranks=[0])
+            cg = rt.lib(fails, "CallGraph", inp, CallGraph, t, ranks=list(ranks) if ranks is not None else None)
         except rt.LibFailure:
             return {"n_checks": 1, "fails": fails, "nontrivial": True}
-        df = cg.trace_data.get_trace(0)
+        df = cg.trace_data.get_trace(check_rank)
         stab = t.symbol_table.get_sym_table()
         rows = {int(i): dict(ts=int(ts), dur=int(du), stream=int(s), ic=int(ic), parent=int(p), depth=int(dp), height=int(h), nk=int(nk), ds=int(ds), fs=int(fs), le=int(le), sp=int(sp),
                              tid=int(tid), pid=int(pid), name=stab[int(nm)])
